@@ -247,6 +247,11 @@ type Local struct{ N int }
 
 type LIface interface{ LM(int) string }
 
+// LImpl implements LIface.
+type LImpl struct{ S string }
+
+func (l LImpl) LM(int) string { return l.S }
+
 type LGen[X any] struct{ V X }
 
 type LGI[X any, Y comparable] interface{ Fetch(Y) X }
@@ -271,6 +276,11 @@ type T struct {
 func (T) String() string { return "" }
 
 type I interface{ M() int }
+
+// ImplI implements I (used by the reflection driver to produce non-nil values).
+type ImplI struct{ N int }
+
+func (i ImplI) M() int { return i.N }
 
 type Fn func(int) string
 
